@@ -104,3 +104,62 @@ theorem dilateInPlace_eq (dt : DT) (shape : List Nat) (sup : List (List Int × I
     exact ih
 
 end Mahotas.C02
+
+namespace Mahotas.C02
+open Mahotas Mahotas.C01
+
+/-- a scan that replaces cell `i` by `φ i (cell i)` for `i < n` (each cell is read before it is written, once) -/
+theorem foldUpd_spec (φ : Nat → Int → Int) (n : Nat) (out : Array Int) :
+    ((List.range n).foldl (fun o i => o.setIfInBounds i (φ i (o.getD i 0))) out).size = out.size ∧
+    ∀ j, j < out.size →
+      ((List.range n).foldl (fun o i => o.setIfInBounds i (φ i (o.getD i 0))) out).getD j 0 =
+        if j < n then φ j (out.getD j 0) else out.getD j 0 := by
+  induction n with
+  | zero => simp
+  | succ n ih =>
+    rw [List.range_succ, List.foldl_append]
+    simp only [List.foldl_cons, List.foldl_nil]
+    obtain ⟨hs, hv⟩ := ih
+    refine ⟨by rw [Array.size_setIfInBounds, hs], fun j hj => ?_⟩
+    rw [getD_setIfInBounds _ _ _ _ _ (by rw [hs]; exact hj)]
+    by_cases hnj : n = j
+    · subst hnj
+      rw [if_pos rfl, hv n hj, if_neg (Nat.lt_irrefl n), if_pos (Nat.lt_succ_self n)]
+    · rw [if_neg hnj, hv j hj]
+      by_cases h1 : j < n
+      · rw [if_pos h1, if_pos (by omega)]
+      · rw [if_neg h1, if_neg (by omega)]
+
+/-- the pure specification of `subm` on arrays -/
+def submPure (dt : DT) (a b : Array Int) : Array Int :=
+  ((List.range a.size).map fun i => submElem dt (a.getD i 0) (b.getD i 0)).toArray
+
+theorem submPure_getD (dt : DT) (a b : Array Int) (j : Nat) (hj : j < a.size) :
+    (submPure dt a b).getD j 0 = submElem dt (a.getD j 0) (b.getD j 0) := by
+  simp [submPure, Array.getD_eq_getD_getElem?, List.getElem?_map, List.getElem?_range hj]
+
+theorem submInPlace_eq (dt : DT) (out b : Array Int) : submInPlace dt out b = submPure dt out b := by
+  obtain ⟨hs, hv⟩ := foldUpd_spec (fun i x => submElem dt x (b.getD i 0)) out.size out
+  apply arr_eq_of_getD
+  · unfold submInPlace; rw [hs]; simp [submPure]
+  · intro j hj
+    have hj' : j < out.size := by unfold submInPlace at hj; rw [hs] at hj; exact hj
+    unfold submInPlace
+    rw [hv j hj', if_pos hj', submPure_getD dt out b j hj']
+
+theorem submInPlaceSelf_getD (dt : DT) (out : Array Int) (j : Nat) (hj : j < out.size) :
+    (submInPlaceSelf dt out).getD j 0 = submElem dt (out.getD j 0) (out.getD j 0) := by
+  obtain ⟨_, hv⟩ := foldUpd_spec (fun _ x => submElem dt x x) out.size out
+  unfold submInPlaceSelf
+  rw [hv j hj, if_pos hj]
+
+theorem copyInto_eq (out a : Array Int) (hsz : out.size = a.size) : copyInto out a = a := by
+  obtain ⟨hs, hv⟩ := foldSet_spec (fun i => a.getD i 0) out.size out
+  apply arr_eq_of_getD
+  · unfold copyInto; rw [hs, hsz]
+  · intro j hj
+    have hj' : j < out.size := by unfold copyInto at hj; rw [hs] at hj; exact hj
+    unfold copyInto
+    rw [hv j hj', if_pos hj']
+
+end Mahotas.C02
